@@ -68,7 +68,11 @@ func init() {
 						for _, n := range lens {
 							w.write(0, 1, n, 51)
 						}
-						w.heal(10 * time.Second)
+						// deliver everything WITHOUT reading (heal would drain the streams with a large buffer)
+						for i := 0; i < 20 && w.pump(50) > 0; i++ {
+						}
+						w.sleep(300 * time.Millisecond)
+						w.pump(50)
 						w.accept(1)
 						for _, n := range lens {
 							for _, b := range []int{0, n - 1, n / 2, n, n + 1} {
